@@ -59,9 +59,9 @@ func obsTags(o TextObs, texts []c17.PkgText) []string {
 	if o.Hung {
 		switch {
 		case sourceHas(texts, "GRANT") && hasFieldSetCycle(texts):
-			tags = append(tags, "C16-F20:grant-column-lookup-explodes-on-field-set-cycle")
+			tags = append(tags, "C16-F20:grant-column-lookup-explodes-on-field-set-cycle") // fixed 2a6677897: a regression
 		case includesTwice(texts):
-			tags = append(tags, "C16-F21:field-sets-included-along-many-paths-exponential")
+			tags = append(tags, "C16-F21:field-sets-included-along-many-paths-exponential") // fixed 8994eec81: a regression
 		default:
 			tags = append(tags, "hang")
 		}
@@ -76,7 +76,7 @@ func obsTags(o TextObs, texts []c17.PkgText) []string {
 		case strings.Contains(o.Err, "ACL filter") && strings.Contains(o.Err, "has no matches"):
 			tags = append(tags, "C16-F7:grant-matching-nothing-refused-by-build") // fixed 510061369: a regression
 		case strings.Contains(o.Err, "reference field") && strings.Contains(o.Err, "to unknown table") && strings.Contains(o.Err, "sys.BLOB"):
-			tags = append(tags, "C16-F23:blob-field-without-sys-blob-refused-by-build")
+			tags = append(tags, "C16-F23:blob-field-without-sys-blob-refused-by-build") // fixed ef5455249: a regression
 		case strings.Contains(o.Err, "parameter type") && strings.Contains(o.Err, "should be") || strings.Contains(o.Err, "result type") && strings.Contains(o.Err, "should be"):
 			tags = append(tags, "C16-F12:function-parameter-kind-refused-by-build") // fixed fc0be6878: a regression
 		case strings.Contains(o.Err, "expected exactly 5 fields") && strings.Contains(o.Err, "cron schedule"):
@@ -96,7 +96,7 @@ func obsTags(o TextObs, texts []c17.PkgText) []string {
 			tags = append(tags, "C16-F1b:builder-refusal-without-position")
 		} else if o.Stage == "build" && len(o.Unpositioned) == 1 && (strings.HasSuffix(o.Unpositioned[0], "unsupported operation: REVOKE Inherits") ||
 			strings.HasPrefix(o.Unpositioned[0], "invalid application definition: not found: field «sys.")) {
-			tags = append(tags, "C16-F24:revoke-role-or-missing-sys-field-without-position")
+			tags = append(tags, "C16-F24:revoke-role-or-missing-sys-field-without-position") // fixed 1d9ef77e6: a regression
 		} else if o.Stage == "build" && len(o.Unpositioned) == 1 && unpositionedRefusal(o.Unpositioned[0]) {
 			// four more refusals of the definition builder that the parser could have stated with a position
 			tags = append(tags, "C16-F19:builder-refusal-without-position-2")
@@ -122,7 +122,7 @@ func obsTags(o TextObs, texts []c17.PkgText) []string {
 		tags = append(tags, "C16-F5b:false-field-set-cycle") // fixed 243abdcb2: a regression
 	}
 	if !o.Deterministic && strings.Contains(o.NonDet, "definitions differ") && sourceHas(texts, "Comment=") {
-		tags = append(tags, "C16-F22:nested-table-comment-depends-on-build-order")
+		tags = append(tags, "C16-F22:nested-table-comment-depends-on-build-order") // fixed 6660b8410: a regression
 	}
 	if !o.Deterministic {
 		if o.RuleOrder {
